@@ -10,6 +10,12 @@ REALS = ("ValueType is modelled by exact reals (type R): every 'equals its defin
          "the size and growth of IEEE rounding error is NOT decided by this check")
 
 UNITS = {
+    "ind_osc": dict(tpl="ind_osc.rs.tpl", doc="indicators::DetrendedPriceOscillator"),
+    "ind_tsi": dict(tpl="ind_tsi.rs.tpl", doc="indicators::{TrueStrengthIndex, SMIErgodicIndicator, MomentumIndex}"),
+    "ind_kst": dict(tpl="ind_kst.rs.tpl", doc="indicators::{KnowSureThing, ChaikinOscillator}"),
+    "ind_rev": dict(tpl="ind_rev.rs.tpl", doc="indicators::{Trix, CoppockCurve, AwesomeOscillator}"),
+    "ind_cci": dict(tpl="ind_cci.rs.tpl", doc="indicators::{CommodityChannelIndex, HullMovingAverage}"),
+    "ind_vol": dict(tpl="ind_vol.rs.tpl", doc="indicators::{EaseOfMovement, EldersForceIndex} with indicators::HLC and Candle::from"),
     "median_abs_dev": dict(tpl="median_abs_dev.rs.tpl", doc="methods::MedianAbsDev over the SMM contract"),
     "smm": dict(tpl="smm.rs.tpl", doc="methods::SMM with smm::{get, next_half, find_index, find_insert_index}"),
     "ind_psar": dict(tpl="ind_psar.rs.tpl", doc="indicators::ParabolicSAR (+ HLC)"),
@@ -119,7 +125,8 @@ KANI_GROUPS = {
         ]),
 }
 
-INDICATOR_UNITS = ["ind_macd", "ind_channels", "ind_rsi", "ind_more", "ind_aroon", "ind_stoch_cmf", "ind_psar", "ind_mfi"]
+INDICATOR_UNITS = ["ind_macd", "ind_channels", "ind_rsi", "ind_more", "ind_aroon", "ind_stoch_cmf", "ind_psar", "ind_mfi",
+                   "ind_osc", "ind_tsi", "ind_kst", "ind_rev", "ind_cci", "ind_vol"]
 IND_DEPS = ["indicator_base", "ohlcv", "window", "sma", "st_dev", "highest_lowest", "highest_lowest_index", "ema", "wma", "candle_methods"]
 COVERED_INDICATORS = "MACD, DonchianChannel, PriceChannelStrategy, BollingerBands, RelativeStrengthIndex, Envelopes, KeltnerChannel, Aroon, ChaikinMoneyFlow, StochasticOscillator, ParabolicSAR, MoneyFlowIndex"
 
@@ -185,7 +192,7 @@ PROPS["C04"] = dict(
 
 METHOD_UNITS = ["sma", "simple_window", "wma", "vwma", "st_dev", "mean_abs_dev", "compose_ma", "ema", "derived_window",
                 "candle_methods", "highest_lowest", "highest_lowest_index", "lin_reg", "swma", "conv", "smm", "median_abs_dev"]
-ALL_VERUS = ["window", "ohlcv"] + METHOD_UNITS + ["indicator_base", "combinators", "converters", "ind_macd", "ind_channels", "ind_rsi", "ind_more", "ind_aroon", "ind_stoch_cmf", "ind_psar", "ind_mfi", "reversal", "indicator_over", "window_serde"]
+ALL_VERUS = ["window", "ohlcv"] + METHOD_UNITS + ["indicator_base", "combinators", "converters"] + INDICATOR_UNITS + ["reversal", "indicator_over", "window_serde"]
 
 PROPS["C08"] = dict(
     verus=ALL_VERUS,
